@@ -81,6 +81,11 @@ func c07Tier(tier string) int {
 func c07Run(c *core.Ctx, idx int) {
 	r := c.Rng
 	tree := c07Gen.Gen(r)
+	tree.Walk(func(n *TNode) {
+		if n.T == "stack" && r.Chance(1, 6) {
+			n.NoNest = true // set after the pushes: must not affect elements already present
+		}
+	})
 	root := tree.BuildStack()
 	depth := tree.Depth()
 	lo, hi := -1, c07Gen.MaxWidth+1
